@@ -11,6 +11,14 @@ _RULE_LOCK = threading.Lock()   # rule modules keep per-body role tables in modu
 RULES = []
 
 
+class Definite(Exception):
+    """raised by a shared anchor helper when what it finds in place of the anchor is itself a violation (the construct is there
+    and is wrong), as opposed to AnchorMissing (nothing recognisable is there)"""
+    def __init__(self, key, msg, body=None, span=None):
+        Exception.__init__(self, msg)
+        self.key, self.msg, self.body, self.span = key, msg, body, span
+
+
 class AnchorMissing(Exception):
     pass
 
@@ -135,6 +143,8 @@ def _run_rules(facts, prop, tier):
         n0 = len(ctx.results)
         try:
             rd.fn(ctx)
+        except Definite as e:
+            ctx.fail(e.body, e.key, e.msg, e.span)
         except AnchorMissing as e:
             ctx.results.append(Result(rd.rid, False, '<crate>', '', '%s||anchor-missing|%s' % (rd.rid, _stable(str(e))),
                                       'anchor missing: %s' % e, {'anchor_missing': True}))
